@@ -119,6 +119,21 @@ def execute(case):
                 ref = _binom_sf(w - 1, N, prob)
                 if not (abs(p - ref) <= 1e-9 * max(ref, 1e-300) + 1e-15):
                     raise Violation("C19/svh/pvalue", {"size": s, "edge": short(e), "library": p, "definition": ref, "N": N, **ctx})
+            # the multiple-testing threshold computed from those p-values (step-up FDR, default alpha = 0.01,
+            # Bonferroni count = number of possible hyperedges of this size on the nodes that occur at this size)
+            n_a = len(K)
+            tau = 0.01 / math.comb(n_a, s)
+            ps = sorted(p for _, p, _ in rows)
+            thr = 0.0
+            for kk, pv in enumerate(ps, start=1):
+                if pv < kk * tau:
+                    thr = kk * tau
+            for e, p, f in rows:
+                if abs(p - thr) <= 1e-12 * max(thr, 1e-300):
+                    continue  # exactly on the threshold: not asserted
+                if f != (p < thr):
+                    raise Violation("C19/svh/validated-set-differs-from-fdr-threshold", {
+                        "size": s, "edge": short(e), "pvalue": p, "threshold": thr, "validated": f, "rows": short(rows, 400), **ctx})
             val = [p for _, p, f in rows if f]
             non = [p for _, p, f in rows if not f]
             if val and non and max(val) > min(non):
